@@ -5,6 +5,7 @@ import (
 	"context"
 	"crypto/sha256"
 	"encoding/base64"
+	"encoding/binary"
 	"encoding/hex"
 	"encoding/json"
 	"fmt"
@@ -170,6 +171,7 @@ func c19Peer(s *simkit.Sim, rc *simkit.RunCtx, sample *c19Sample) {
 	byz := &seams.Endpoint{Name: "byz", PeerID: "peer-byz", Inc: &seams.Incarnation{Node: "byz", Gen: 1, S: s}}
 	var mu sync.Mutex
 	conv := map[string][]byte{} // last conversation id the node used, per query kind
+	var stateLC uint32          // the clock the node named in its last State message
 	var wantedRefs [][]byte
 	byz.OnMessage = func(from *seams.Endpoint, c *seams.Conn, envelope interface{}) {
 		e, ok := envelope.(*v2.Envelope)
@@ -181,6 +183,7 @@ func c19Peer(s *simkit.Sim, rc *simkit.RunCtx, sample *c19Sample) {
 		switch m := e.Message.(type) {
 		case *v2.Envelope_State:
 			conv["state"] = m.State.ConversationID
+			stateLC = m.State.LC
 		case *v2.Envelope_TransactionListQuery:
 			conv["list"] = m.TransactionListQuery.ConversationID
 			wantedRefs = m.TransactionListQuery.Refs
@@ -351,7 +354,7 @@ func c19Peer(s *simkit.Sim, rc *simkit.RunCtx, sample *c19Sample) {
 		b, _ := ib.MarshalBinary()
 		return b
 	}
-	kinds := []string{"gossip", "state", "transaction-set", "list-query", "range-query", "payload-query", "transaction-list", "transaction-list", "transaction-list", "transaction-payload", "diagnostics", "empty"}
+	kinds := []string{"transaction-set-cycling-key", "gossip", "state", "transaction-set", "list-query", "range-query", "payload-query", "transaction-list", "transaction-list", "transaction-list", "transaction-payload", "diagnostics", "empty"}
 	steps := 3 + s.D.Decide("steps", 8)
 	for i := 0; i < steps && !s.Failed(); i++ {
 		kind := kinds[s.D.Decide("envelope", len(kinds))]
@@ -397,6 +400,28 @@ func c19Peer(s *simkit.Sim, rc *simkit.RunCtx, sample *c19Sample) {
 				cid = pickBytes("set-cid-bytes", []byte("0123456789abcdef0123456789abcdef0123"))
 			}
 			env = &v2.Envelope{Message: &v2.Envelope_TransactionSet{TransactionSet: &v2.TransactionSet{ConversationID: cid, LCReq: pickU32("set-lcreq", head.LC), LC: pickU32("set-lc", head.LC), IBLT: ib}}}
+		case "transaction-set-cycling-key":
+			// A set-reconciliation filter with one cell for a key whose chain of bucket hashes runs into a cycle of three
+			// values (three buckets, six are needed): inserting or deleting that key never ended. (The key was met by chance,
+			// as the ref of a transaction in a C13 run; finding such keys by search takes a few billion hash evaluations.)
+			x := hash.SHA256Sum([]byte(fmt.Sprintf("cyc-%d", i)))
+			_ = w.P2P.Inject("byz", "n1", &v2.Envelope{Message: &v2.Envelope_Gossip{Gossip: &v2.Gossip{XOR: x.Slice(), LC: head.LC}}})
+			s.Advance(300 * time.Millisecond)
+			cid := convFor("state")
+			if cid == nil {
+				continue
+			}
+			key, _ := hex.DecodeString("b35f2a6e91faa94a94dd6ac4df87c9a0a15bf3000e0e79c321bf8b2072f63a6a")
+			ib := make([]byte, dag.IbltNumBuckets*44)
+			for _, cell := range []int{7, 300, 901} {
+				binary.LittleEndian.PutUint32(ib[cell*44:], 1)
+				binary.LittleEndian.PutUint64(ib[cell*44+4:], 11175506510798283031)
+				copy(ib[cell*44+12:], key)
+			}
+			mu.Lock()
+			lc := stateLC
+			mu.Unlock()
+			env = &v2.Envelope{Message: &v2.Envelope_TransactionSet{TransactionSet: &v2.TransactionSet{ConversationID: cid, LCReq: lc, LC: lc, IBLT: ib}}}
 		case "list-query":
 			var refs [][]byte
 			for j := s.D.Decide("query-refs", 4); j > 0; j-- {
